@@ -44,6 +44,7 @@ type Engine struct {
 	ifacePreds    map[string]types.Type
 	ifaceNames    map[string]bool
 	extraUFuns    map[string]int
+	footprints    map[*ssa.Function]map[string]string
 	extraUPreds   map[string]int
 	siteAssumes   map[string]string
 	loadErrs      []string
@@ -100,7 +101,7 @@ func loadEngine(dir string, overlay map[string][]byte) (*Engine, error) {
 	e := &Engine{dir: dir, contracts: map[string]*Contract{}, funcs: map[string]*ssa.Function{}, voc: newVocab(),
 		importAlias: map[string]map[string]*types.Package{}, pkgByPath: map[string]*types.Package{},
 		tidTypes: map[string]types.Type{}, ifacePreds: map[string]types.Type{}, ifaceNames: map[string]bool{},
-		extraUFuns: map[string]int{}, extraUPreds: map[string]int{}, siteAssumes: map[string]string{}}
+		extraUFuns: map[string]int{}, footprints: map[*ssa.Function]map[string]string{}, extraUPreds: map[string]int{}, siteAssumes: map[string]string{}}
 	e.fset = token.NewFileSet()
 	cfg := &packages.Config{
 		Mode:    packages.LoadAllSyntax,
@@ -590,6 +591,10 @@ func (fe *FnExec) setupEntry(fr *frame) {
 		for _, a := range fr.con.Assumes {
 			ctx := fe.ctxFor(fr, st)
 			fe.assume(ctx.evalBool(a.X), "assume "+a.Label)
+		}
+		for _, inv := range fr.con.CbInvs {
+			ctx := fe.ctxFor(fr, st)
+			fe.assume(ctx.evalBool(inv.X), "invariant "+inv.Label+" holds whenever the callee calls the literal")
 		}
 	}
 	fr.entry = st.clone()
